@@ -25,6 +25,7 @@ type PropConfig struct {
 	Bounded    []string `json:"bounded"`
 	Extra      []string `json:"extra_checks"` // label checker etc.
 	Note       string   `json:"note"`
+	WriteSets  bool     `json:"writesets"` // check the writeset declarations of the loaded contract files
 }
 
 func main() {
@@ -143,6 +144,9 @@ func cmdVerify(args []string) int {
 		E.VerifyFunction(t.fn, t.fc)
 	}
 	E.VerifyRows()
+	if cfg.WriteSets {
+		E.VerifyWriteSets()
+	}
 	E.VerifyLemmas()
 	E.extraChecks(&cfg)
 	rep.GenSeconds = time.Since(t0).Seconds()
